@@ -38,15 +38,16 @@ GActs(P) == UNION {{[a |-> P.actions[i].name, args |-> t] : t \in Tuples(P, P.ac
 
 \* one expanded effect (effect record ef, environment env) evaluated in the pre-state;
 \* who identifies the action instance the effect belongs to (always 1 in sequential steps)
-EvEffect(R, ef, env, who, s) ==
+\* id is the index of the effect in its action (two syntactically equal effects stay distinct)
+EvEffect(R, ef, env, who, id, s) ==
    LET c  == Eval(R, ef.c, s, env)
        ta == EvalArgs(R, ef.f.args, s, env)
        v  == Eval(R, ef.v, s, env)
-   IN [who |-> who, kind |-> ef.kind, c |-> c, argsU |-> AnyU(ta),
+   IN [who |-> who, id |-> id, kind |-> ef.kind, c |-> c, argsU |-> AnyU(ta),
        key |-> IF AnyU(ta) THEN 0 ELSE KeyIdx(R, ef.f.name, [j \in DOMAIN ta |-> ArgKey(ta[j])]),
        v |-> v, ast |-> ef.v, env |-> env]
 \* all forall-instances of effect ef under env
-ExpandEff(R, ef, env, who, s) == {EvEffect(R, ef, en, who, s) : en \in Envs(R.P, ef.forall, env)}
+ExpandEff(R, ef, env, who, id, s) == {EvEffect(R, ef, en, who, id, s) : en \in Envs(R.P, ef.forall, env)}
 
 RECURSIVE SumKind(_,_)
 SumKind(S, acc) == IF S = {} THEN acc
@@ -106,7 +107,7 @@ Step(R, ga, s) ==
   IN IF pre3 = "F" THEN [ok |-> FALSE, why |-> "pre", unspec |-> FALSE, s |-> s]
      ELSE IF pre3 = "?" THEN [ok |-> FALSE, why |-> "pre?", unspec |-> TRUE, s |-> s]
      ELSE
-     LET E == UNION {ExpandEff(R, a.effects[i], env, 1, s) : i \in DOMAIN a.effects}
+     LET E == UNION {ExpandEff(R, a.effects[i], env, 1, i, s) : i \in DOMAIN a.effects}
          c == Combine(R, E, s)
      IN IF ~c.ok THEN c
         ELSE LET ns   == c.s
